@@ -67,3 +67,80 @@ Proof.
   { induction l as [|a l IH]; cbn [flat_map length]; [reflexivity|]. rewrite app_length, map_length, seq_length, IH. lia. }
   rewrite G, seq_length. reflexivity.
 Qed.
+
+Lemma combine_as_seq (A B : list R) n : length A = n -> length B = n -> combine A B = map (fun j => (nth j A 0, nth j B 0)) (seq 0 n).
+Proof.
+  intros HA HB. apply (nth_ext _ _ (0, 0) (0, 0)).
+  - rewrite combine_length, map_length, seq_length. lia.
+  - intros j Hj. rewrite combine_length in Hj. rewrite combine_nth by lia. rewrite nth_map_seq_gen by lia. reflexivity.
+Qed.
+Lemma map2_as_seq (op : R -> R -> R) (A B : list R) n : length A = n -> length B = n ->
+  map2 op A B = map (fun i => op (nth i A 0) (nth i B 0)) (seq 0 n).
+Proof. intros HA HB. rewrite map2_as_combine, (combine_as_seq A B n HA HB), map_map. reflexivity. Qed.
+Lemma flat_map_map' {A B C} (g : B -> list C) (h : A -> B) l : flat_map g (map h l) = flat_map (fun x => g (h x)) l.
+Proof. induction l as [|a l IH]; cbn [map flat_map]; [reflexivity|]. rewrite IH. reflexivity. Qed.
+Lemma map_flat_map'' {A B C} (f : B -> C) (g : A -> list B) l : map f (flat_map g l) = flat_map (fun x => map f (g x)) l.
+Proof. induction l as [|a l IH]; cbn [map flat_map]; [reflexivity|]. rewrite map_app, IH. reflexivity. Qed.
+
+Section Naive.
+Variables XL XR YL YR : list R.
+Variable n : nat.
+Hypothesis lXL : length XL = n. Hypothesis lXR : length XR = n.
+Hypothesis lYL : length YL = n. Hypothesis lYR : length YR = n.
+Definition low (i j : nat) : R := fst (istep Rmult (nth i XL 0, nth i XR 0) (nth j YL 0, nth j YR 0)).
+Definition high (i j : nat) : R := snd (istep Rmult (nth i XL 0, nth i XR 0) (nth j YL 0, nth j YR 0)).
+Definition lows : list R := map fst (all_pairs Rmult (combine XL XR) (combine YL YR)).
+Definition highs : list R := map snd (all_pairs Rmult (combine XL XR) (combine YL YR)).
+Lemma lows_grid : lows = flat_map (fun i => map (low i) (seq 0 n)) (seq 0 n).
+Proof. unfold lows, all_pairs. rewrite (combine_as_seq XL XR n), (combine_as_seq YL YR n) by assumption.
+  rewrite map_flat_map'', flat_map_map'. apply flat_map_ext. intros i. rewrite !map_map. reflexivity. Qed.
+Lemma highs_grid : highs = flat_map (fun i => map (high i) (seq 0 n)) (seq 0 n).
+Proof. unfold highs, all_pairs. rewrite (combine_as_seq XL XR n), (combine_as_seq YL YR n) by assumption.
+  rewrite map_flat_map'', flat_map_map'. apply flat_map_ext. intros i. rewrite !map_map. reflexivity. Qed.
+Lemma lows_length : length lows = (n * n)%nat. Proof. rewrite lows_grid. apply grid_length. Qed.
+Lemma highs_length : length highs = (n * n)%nat. Proof. rewrite highs_grid. apply grid_length. Qed.
+
+Lemma cell_encl i j x y : nth i XL 0 <= x <= nth i XR 0 -> nth j YL 0 <= y <= nth j YR 0 -> low i j <= x * y <= high i j.
+Proof. intros Hx Hy. unfold low, high, istep, corner_hull. cbn [fst snd]. apply mul_corner_encl; assumption. Qed.
+
+Theorem naive_bounds (u v : list R) : bounds XL XR u -> bounds YL YR v ->
+  bounds (fst (naive_frechet_op RN Rmult XL XR YL YR)) (snd (naive_frechet_op RN Rmult XL XR YL YR)) (map2 Rmult u v).
+Proof.
+  intros Bu Bv.
+  assert (Lu : length u = n) by (destruct Bu as (H & _); lia). assert (Lv : length v = n) by (destruct Bv as (H & _); lia).
+  destruct (wlog_sorted Rmult u v ltac:(lia)) as (u' & v' & PZ & Su & Pu & Pv & L').
+  apply (bounds_perm _ _ _ _ (Permutation_sym PZ)).
+  pose proof (bounds_perm _ _ _ _ Pu Bu) as Bu'. pose proof (bounds_perm _ _ _ _ Pv Bv) as Bv'.
+  assert (Lu' : length u' = n) by (rewrite <- (Permutation_length Pu); exact Lu).
+  assert (Lv' : length v' = n) by lia.
+  set (z := fun i => nth i u' 0 * nth i v' 0).
+  rewrite (map2_as_seq Rmult u' v' n Lu' Lv'). fold z.
+  unfold naive_frechet_op. cbn [T RN]. rewrite lXL. rewrite independent_op_spec by lia. fold lows highs. cbn [fst snd].
+  assert (Hnn : (n <= n * n)%nat) by nia.
+  assert (Lf : length (firstn n (Rsort lows)) = n) by (rewrite firstn_length, Rsort_length, lows_length; lia).
+  assert (Ls : length (skipn (n * n - n) (Rsort highs)) = n) by (rewrite skipn_length, Rsort_length, highs_length; lia).
+  cbn [T RN] in *. split; [rewrite map_length, seq_length; symmetry; exact Lf|]. split; [rewrite Ls; symmetry; exact Lf|].
+  intros s Hs Hss k Hk. rewrite Lf in Hk.
+  (* the cell of outcome i: its own step of X (u' is sorted), some step of Y *)
+  assert (Hcell : forall i, (i < n)%nat -> exists j, (j < n)%nat /\ low i j <= z i <= high i j).
+  { intros i Hi. destruct (in_some_step YL YR v' (nth i v' 0) Bv' ltac:(apply nth_In; lia)) as (j & Hj & Hy).
+    exists j. split; [lia|]. apply cell_encl; [apply (sorted_in_own_step XL XR u' i Bu' Su); lia|exact Hy]. }
+  split.
+  - rewrite nth_firstn_lt by exact Hk. apply Rleb_true.
+    apply (rank_lower R Rleb Rleb_trans) with (l := map z (seq 0 n)); auto; [|rewrite map_length, seq_length; exact Hk].
+    set (t := nth k (Rsort lows) 0). unfold cnt.
+    etransitivity; [apply (grid_count n z low (fun a => ltb Rleb a t))|].
+    + intros i Hi Hlt. destruct (Hcell i Hi) as (j & Hj & Hz). exists j. split; [exact Hj|]. apply Rltb_ltb in Hlt. apply Rltb_ltb. lra.
+    + rewrite <- lows_grid. change (length (filter (fun a => ltb Rleb a t) lows)) with (cnt (fun a => ltb Rleb a t) lows).
+      rewrite (cnt_perm _ _ _ _ (Rsort_perm lows)). apply sorted_cnt_lt; [apply Rsort_sorted|rewrite Rsort_length, lows_length; lia].
+  - rewrite nth_skipn_add. apply Rleb_true.
+    apply (rank_upper R Rleb Rleb_trans) with (l := map z (seq 0 n)); auto; [rewrite map_length, seq_length; exact Hk|].
+    rewrite map_length, seq_length. set (t := nth (n * n - n + k) (Rsort highs) 0). unfold cnt.
+    etransitivity; [apply (grid_count n z high (fun a => ltb Rleb t a))|].
+    + intros i Hi Hlt. destruct (Hcell i Hi) as (j & Hj & Hz). exists j. split; [exact Hj|]. apply Rltb_ltb in Hlt. apply Rltb_ltb. lra.
+    + rewrite <- highs_grid. change (length (filter (fun a => ltb Rleb t a) highs)) with (cnt (fun a => ltb Rleb t a) highs).
+      rewrite (cnt_perm _ _ _ _ (Rsort_perm highs)).
+      pose proof (sorted_cnt_gt (Rsort highs) (Rsort_sorted highs) (n * n - n + k)%nat ltac:(rewrite Rsort_length, highs_length; lia)) as C.
+      rewrite Rsort_length, highs_length in C. unfold t. cbn [T RN] in *. unfold cnt in *. nia.
+Qed.
+End Naive.
